@@ -277,11 +277,32 @@ func e2eFormsWorker(args []string) error {
 
 		if rng.Intn(2) == 0 {
 			// a request that is rejected (empty flow description) leaves the table as it was
-			bad := []e2e.App{{ID: "appZ", Flows: []pfcpx.Flow{mkFlow("out")}, Texts: []string{""}}}
+			// (the offending entry is new, or carries the name of a provisioned application; it comes first or after
+			// entries that were already taken over when the request is refused)
+			badID := "appZ"
+			if rng.Intn(2) == 0 {
+				badID = apps[rng.Intn(len(apps))].ID
+			}
+
+			var bad []e2e.App
+
+			if rng.Intn(2) == 0 {
+				bad = append(bad, e2e.App{ID: "appY", Flows: []pfcpx.Flow{mkFlow("out")}})
+				if len(apps) > 1 && apps[len(apps)-1].ID != badID && rng.Intn(2) == 0 {
+					bad = append(bad, e2e.App{ID: apps[len(apps)-1].ID, Flows: []pfcpx.Flow{mkFlow("in")}})
+				}
+			}
+
+			bad = append(bad, e2e.App{ID: badID, Flows: []pfcpx.Flow{mkFlow("out")}, Texts: []string{""}})
 			w.PfdRaw("p1", bad, true)
 			sum.Stats["pfd_rejected"]++
-			use(names[0])
+
+			for _, n := range names {
+				use(n)
+			}
+
 			use("appZ")
+			use("appY")
 		}
 
 		if rng.Intn(3) == 0 {
